@@ -100,7 +100,8 @@ pub fn run(case: &Value, _ctx: &Ctx) -> Outcome {
                     || format!("array/{kind}/len"),
                     || json!({"call": j, "len_reported": len, "len_expected": want_len}),
                 );
-                let got = match guarded(|| iter.next()) {
+                let nth = e.get("n").and_then(|x| x.as_i64()).unwrap_or(-1);
+                let got = match guarded(|| if nth < 0 { iter.next() } else { iter.nth(nth as usize) }) {
                     Ok(Some(x)) => match $conv(x) {
                         Ok(v) => R::Some(v),
                         Err(m) => R::Panic(m),
@@ -114,7 +115,8 @@ pub fn run(case: &Value, _ctx: &Ctx) -> Outcome {
                     ok,
                     || {
                         format!(
-                            "array/{kind}/next/{}{}",
+                            "array/{kind}/{}/{}{}",
+                            if nth < 0 { "next" } else { "nth" },
                             match &got {
                                 R::Some(_) => "some",
                                 R::None => "none",
